@@ -503,6 +503,23 @@ pub fn c17(sh: &Shape) {
     if rw.sat_m_k == W_STACK && rw.plan_m_k == W_STACK {
         chk!(rw.sat_m == rw.plan_m, "malleable plan template or reported time locks differ from the satisfier's");
     }
+    // (1b) the descriptor-level entry points (get_satisfaction(_mall) of the wrapper and of the nested
+    // sh(wsh(..)) wrapper, into_plan(_mall) of the latter) return exactly the miniscript-level template
+    let mut c = 0;
+    while c < 6 {
+        let code = rw.dcodes[c];
+        chk!(code != 4, "a descriptor-level satisfaction contains an element the generator cannot interpret (inconclusive)");
+        if c == 0 || c == 2 {
+            chk!(code <= 1, "Descriptor::get_satisfaction differs from the non-malleable satisfier's template");
+        } else if c == 1 || c == 3 {
+            chk!(code <= 1, "Descriptor::get_satisfaction_mall differs from the malleable satisfier's template");
+        } else if c == 4 {
+            chk!(code <= 1, "sh(wsh(..)).into_plan differs from the non-malleable satisfier's template or locks");
+        } else {
+            chk!(code <= 1, "sh(wsh(..)).into_plan_mall differs from the malleable satisfier's template or locks");
+        }
+        c += 1;
+    }
     // (2) necessity of the reported locks: with any lock value NOT meeting them the witness fails
     let mut i = 0;
     while i < sh.wits.len() {
